@@ -16,7 +16,7 @@ import unittest
 
 from mpf.tests.MpfTestCase import MpfTestCase
 
-MACHINE = tempfile.mkdtemp(prefix="c13_f4_", dir=os.path.dirname(os.path.abspath(__file__)))
+MACHINE = tempfile.mkdtemp(prefix="c13_f4_")
 atexit.register(shutil.rmtree, MACHINE, True)
 os.makedirs(os.path.join(MACHINE, "config"))
 os.makedirs(os.path.join(MACHINE, "modes", "m1", "config"))
